@@ -454,6 +454,9 @@ type roundCfg struct {
 }
 
 func (r roundCfg) String() string {
+	if r.sched == "own-keys" {
+		return fmt.Sprintf("round backend=%s store=%s sched=own-keys g=%d m=%d", r.backend, r.store, r.g, r.m)
+	}
 	if r.sched != "" {
 		return fmt.Sprintf("round backend=%s store=%s sched=%s", r.backend, r.store, r.sched)
 	}
@@ -485,6 +488,10 @@ func parseRound(line string) (roundCfg, bool) {
 		case "sched":
 			r.sched = kv[1]
 		}
+	}
+	if r.sched == "own-keys" && (r.backend == "sql" || r.backend == "mem") && (r.store == "ord" || r.store == "uno") &&
+		r.g >= 2 && r.g <= 32 && r.m >= 10 && r.m <= 60000 {
+		return r, true
 	}
 	if r.sched == "commit-busy" && r.backend == "sql" && (r.store == "ord" || r.store == "uno") {
 		r.g, r.m = 4, 2
@@ -1153,6 +1160,13 @@ func main() {
 		// the interleaving the SQLite lock model singles out (a COMMIT refused while a reader is parked)
 		rounds = append(rounds, roundCfg{backend: "sql", store: "ord", g: 4, m: 2, sched: "commit-busy"},
 			roundCfg{backend: "sql", store: "uno", g: 4, m: 2, sched: "commit-busy"})
+		// own keys, values of different lengths: nothing under KV.Mutate may leak between calls
+		ownMs := 1500
+		if f.Thorough() {
+			ownMs = 6000
+		}
+		rounds = append(rounds, roundCfg{backend: "mem", store: "ord", g: 8, m: ownMs, sched: "own-keys"},
+			roundCfg{backend: "sql", store: "uno", g: 8, m: ownMs * 2, sched: "own-keys"})
 		for i := 0; i < nMem; i++ {
 			g := hx.Pick(r, gs)
 			m := 100 + r.Intn(400)
@@ -1183,6 +1197,24 @@ func main() {
 	for _, cfg := range rounds {
 		for rep := 0; rep < reps; rep++ {
 			j.Risky(cfg.String())
+			if cfg.sched == "own-keys" {
+				fails, hung, err := e.runOwnKeys(cfg, 40*time.Second+time.Duration(cfg.m)*time.Millisecond, rp)
+				if hung {
+					_, hung, err = e.runOwnKeys(cfg, 40*time.Second+time.Duration(cfg.m)*time.Millisecond, rp)
+					if hung {
+						rp.Fail(cfg.backend+":op-never-returns", "an own-key round did not finish within its time plus 40 s, twice: "+cfg.String(), []string{cfg.String()})
+					}
+				}
+				if err != nil {
+					rp.Note("round %s could not be set up: %v", cfg, err)
+				}
+				rp.Case(cfg.String(), true)
+				rp.Count("rounds:own-keys:" + cfg.backend)
+				for _, fl := range fails {
+					rp.Fail(cfg.backend+":mutate-stored-foreign-bytes", fl+" ["+cfg.String()+"]", []string{cfg.String()})
+				}
+				continue
+			}
 			// a round is a few hundred milliseconds of work; the watchdog only catches a call that does not return
 			res, err := e.runRound(cfg, 40*time.Second)
 			if err != nil {
